@@ -89,6 +89,25 @@ def make_value(spec, mod, i, depth):
     return wire, cls(**kwargs), out
 
 
+def mixed_wire(spec, mod, i, depth):
+    """The wire form of make_value(...) in which the child reached from the root is handed over as an *instance* of its class
+    holding raw, unconverted wire values (its own members still plain dicts / lists): the expected result is unchanged - every
+    level is converted whatever carrier a level arrives in.  None when the root descends into no child."""
+    wire, _, _ = make_value(spec, mod, i, depth)
+    outgoing = [(b, kind) for (a, b, kind) in spec["edges"] if a == i]
+    for idx, (b, kind) in enumerate(outgoing):
+        f = f"f{b}_{kind}"
+        if depth > 0 and idx == (depth % len(outgoing)) and kind in ("opt", "union", "list", "dict", "tup"):
+            cw, _, _ = make_value(spec, mod, b, depth - 1)
+            try:
+                inst = getattr(mod, f"C{b}")(**cw)
+            except Exception:
+                return None
+            wire[f] = {"opt": inst, "union": inst, "list": [inst], "dict": {"a": inst}, "tup": [inst]}[kind]
+            return wire
+    return None
+
+
 def wrap_root(rk, w, e, m):
     if rk in ("cls", "opt", "newtype"):
         return w, e, m
@@ -121,6 +140,15 @@ def run_case(spec):
             return f"unmarshal({root!r}, depth {d}) raised {type(ex).__name__}: {ex}"[:300]
         if got != e or type(got) is not type(e):
             return f"unmarshal({root!r}) at depth {d}: some level is not converted: got {got!r}"[:400]
+        if spec.get("root", "cls") in ("cls", "opt", "newtype") and 0 < d <= 6:
+            mw = mixed_wire(spec, mod, spec.get("root_i", 0), d)
+            if mw is not None:
+                try:
+                    got2 = typelib.unmarshal(root, mw)
+                except Exception as ex:
+                    return f"unmarshal({root!r}, depth {d}) of a value whose child is an instance holding raw members raised {type(ex).__name__}: {ex}"[:300]
+                if got2 != e or type(got2) is not type(e):
+                    return f"unmarshal({root!r}) at depth {d}: a child given as an instance holding raw members is not converted below it: got {got2!r}"[:400]
         try:
             back = typelib.marshal(e, t=root)
         except RecursionError:
